@@ -25,6 +25,9 @@ type Violation struct {
 	Detail  string `json:"detail,omitempty"`
 	Input   any    `json:"input,omitempty"`
 	Sub     int    `json:"sub"`
+	// MatchAny: the ctx components are alternative localisations (a crash cannot be pinned to one
+	// shape of the type); the violation is known if any component matches an entry.
+	MatchAny bool `json:"match_any,omitempty"`
 }
 
 // Result is what one batch reports.
